@@ -104,7 +104,8 @@ def model_line(c, o):
     elif k in ("W", "Z"): par = [str(o["rows"]), fl(o["mat"]), fl(o["off"])]
     elif k == "P":
         par = [str(o["vcols"]), fl(o["ev"]), fl(o["evec"])]
-        if "on" in o and c["n"] >= 2: par += [str(o["on"]), fl(o["oD"]), fl(o["oU"]), binq(EPSM), binq(CUT)]
+        # the small-sample runs of the model are expensive (exact rationals of a few thousand bits): first two members of a group only
+        if "on" in o and c["n"] >= 2 and (c["d"] <= c["n"] or c.get("li", 0) < 2): par += [str(o["on"]), fl(o["oD"]), fl(o["oU"]), binq(EPSM), binq(CUT)]
     elif k in ("D", "DW"): par = [fl(o["mat"])]
     return " | ".join(out) + (" || " + " | ".join(par) if par else "")
 
@@ -709,6 +710,7 @@ class Runner:
             o, rc, err = io[gi]; cs = []; os_ = []
             for li, (l, rel) in enumerate(G):
                 c = parse_case(l); c["rel"] = rel; cs.append(c)
+                c["li"] = li
                 os_.append(parse_out(o[li]) if li < len(o) else None)
             allc.append((cs, os_, rc, err, len(o)))
             if with_model and rc == 0:
